@@ -20,7 +20,7 @@ def hostile(args):
     w = SW.ServerWorld(seed=seed, conn_timeout=3.0, blocklist=() if late else blocklist, mtu=kw.get("mtu"), handler_raise=0.0, echo_deadline=0.6)
     if late:
         # the application configures the block list AFTER it built the server object (the documentation only asks for "before run()"), and replaces it later
-        w.ctxt.setBlockList({blocklist[0]})
+        w.set_blocklist({blocklist[0]})
     crc32 = impl.mod("crypto").crc32
     C = w.C
     try:
@@ -59,7 +59,7 @@ def hostile(args):
             except Exception:
                 keyed["stage"] = 9
             if late and t == nticks // 2:
-                w.ctxt.setBlockList(set(blocklist))
+                w.set_blocklist(set(blocklist))
             # canary requests once the clients are connected
             for cid in (1, 2):
                 if w.clients[cid]["cl"].connected() and t % 7 == cid:
@@ -138,7 +138,9 @@ def run(ctx):
     from concurrent.futures import ProcessPoolExecutor
     jobs = []
     for i, kw in enumerate([dict(), dict(blocklist=("9.9.9.9",)), dict(mtu=512), dict(blocklist=("9.9.9.9", "6.6.6.6"), mtu=1000), dict(rate=40),
-                               dict(blocklist=("9.9.9.9", "6.6.6.6"), late_blocklist=True)] * (1 if q else 6)):
+                               dict(blocklist=("9.9.9.9", "6.6.6.6"), late_blocklist=True),
+                               # a server bound to "::" sees IPv4 peers in IPv4-mapped form: that is what an operator lists, and what the transport reports
+                               dict(blocklist=("::ffff:203.0.113.7", "2001:db8::bad", "FE80:0:0:0:0:0:0:1"), late_blocklist=True)] * (1 if q else 6)):
         jobs.append((ctx.seed * 10 + i, 500 if q else 1500, kw))
     with ProcessPoolExecutor(min(16, len(jobs))) as ex:
         traces = list(ex.map(hostile, jobs))
